@@ -179,7 +179,7 @@ func TestRandom(t *testing.T) {
 			}
 			for it := 0; it < rc.NReq*60+200; it++ {
 				k.C.Wait()
-				if closeAt >= 0 && it == closeAt && !k.Closed {
+				if closeAt >= 0 && it >= closeAt && !k.Closed && !k.versionBusy() {
 					st := []any{"ClientClose"}
 					if k.Do(st) == nil {
 						done = append(done, st)
@@ -189,7 +189,7 @@ func TestRandom(t *testing.T) {
 				en := k.enabledSteps()
 				// candidate new request
 				var next []any
-				if sent < rc.NReq && !k.Closed {
+				if sent < rc.NReq && !k.Closed && !k.versionBusy() {
 					next = randomRequest(rng, m, cfg, rc)
 				}
 				if next == nil && len(en) == 0 {
@@ -296,6 +296,22 @@ func TestRandom(t *testing.T) {
 	}
 }
 
+// versionBusy: the receive goroutine is processing a Tversion (synchronously): nothing else is received meanwhile.
+func (k *Case) versionBusy() bool {
+	for r, kd := range k.kinds {
+		if kd != "Version" || r > len(k.ch.Reqs) {
+			continue
+		}
+		for _, p := range k.C.Parked() {
+			if p.Conn == k.ch.Idx && p.Req == r && p.Point != "send_got" {
+				return true
+			}
+		}
+		// also while a Respond activation of another request runs on that goroutine (the flush loop)
+	}
+	return false
+}
+
 func (k *Case) writingReq(r int) bool {
 	// the request whose reply the sender currently holds (parked at send_got or writing)
 	for _, p := range k.C.Parked() {
@@ -310,13 +326,19 @@ func randomRequest(rng *rand.Rand, m *clientModel, cfg Cfg, rc RandCfg) []any {
 	for try := 0; try < 20; try++ {
 		kind := rc.Kinds[rng.Intn(len(rc.Kinds))]
 		tag := 1 + rng.Intn(cfg.NT)
+		if kind == "Version" {
+			return []any{"Recv", "Version", cfg.NoTag, 0, 0, 0}
+		}
+		if tag == cfg.NoTag {
+			continue
+		}
 		if kind == "Flush" {
 			if m.tagBusy(tag) {
 				continue
 			}
 			var busy []int
 			for t := 1; t <= cfg.NT; t++ {
-				if t != tag && m.tagBusy(t) {
+				if t != tag && t != cfg.NoTag && m.tagBusy(t) {
 					busy = append(busy, t)
 				}
 			}
